@@ -125,6 +125,7 @@ class Engine:
         self._solver = None
         self.unroll_limit = self.options.get('unroll_limit', 64)
         self.deadline = None
+        self.truncated = []       # loops whose exploration was cut (function then undecided unless a violation is found)
 
     # ------------------------------------------------------------------ utilities
     def fresh(self, sort, name='t'):
@@ -684,6 +685,13 @@ class Engine:
                 yield s1, (r if isinstance(op, ast.Eq) else self.neg(r))
             return
         # ordering
+        if isinstance(a, SUnionIB) or isinstance(b, SUnionIB):
+            # the Python type of an int|bytes union decides (bytes vs int ordering is a TypeError): fork into the two cases
+            for s1, a1 in (self.resolve_union(st, a) if isinstance(a, SUnionIB) else [(st, a)]):
+                for s2, b1 in (self.resolve_union(s1, b) if isinstance(b, SUnionIB) else [(s1, b)]):
+                    for r in self.compare(op, a1, b1, s2, sink):
+                        yield r
+            return
         if _conc(a) and _conc(b):
             try:
                 yield st, {ast.Lt: lambda: a < b, ast.LtE: lambda: a <= b, ast.Gt: lambda: a > b, ast.GtE: lambda: a >= b}[type(op)]()
@@ -857,7 +865,7 @@ class Engine:
     def contains(self, container, item, st, sink):
         if isinstance(container, Ref):
             h = st.heap[container.oid]
-            if h.kind == 'list':
+            if h.kind in ('list', 'set'):
                 container = tuple(h.items)
             elif h.kind == 'dict':
                 if not self.is_hashable_concrete(item):
@@ -1045,6 +1053,15 @@ class Engine:
                 v = h.items
             elif h.kind == 'obj' and h.cls is not None and h.cls.find_method('__iter__'):
                 raise Unsupported('iteration through __iter__')
+            elif h.kind == 'obj' and h.cls is None and getattr(h, 'ghost_id', None) and self.registry is not None:
+                # abstract object: its items exist only as the model  <class>.__iter__  (single outcome: a tuple of the items)
+                hook = self.registry.call_hook(self, h.ghost_id + '.__iter__', st)
+                if hook is None:
+                    raise Unsupported('abstract object %s has no model for iteration' % h.ghost_id)
+                outs = list(hook(self, st, [v], {}))
+                if len(outs) != 1 or outs[0][0] != 'val' or outs[0][1] is not st or not isinstance(outs[0][2], tuple):
+                    raise Unsupported('iteration over abstract object %s is not a single tuple' % h.ghost_id)
+                return list(outs[0][2])
         if isinstance(v, FrozenDict):
             return list(v.d.keys())
         from .loops import SRange, _range_items_if_decided
@@ -1600,6 +1617,9 @@ class Engine:
                     if not self.models.is_lock_like(self, s1, v):
                         raise Unsupported('with on non-lock object')
                     s1.ghost['locks_held'] = s1.ghost.get('locks_held', ()) + (self.models.lock_id(self, s1, v),)
+                    # lock events are also put into the write log (pseudo object -1) so that a contract can tell which heap writes
+                    # happened while the lock was held (C19 lock discipline: spec form writes_outside_lock)
+                    s1.writes.append((-1, '<lock+>'))
                     if item.optional_vars is not None:
                         nxt.extend(self.assign(item.optional_vars, v, s1, sink))
                     else:
@@ -1610,6 +1630,8 @@ class Engine:
             for o in self.run_block(n.body, s1):
                 held = o[1].ghost.get('locks_held', ())
                 o[1].ghost['locks_held'] = held[:len(held) - len(n.items)]
+                for _i in n.items:
+                    o[1].writes.append((-1, '<lock->'))
                 outs.append(o)
         return outs
 
